@@ -30,6 +30,20 @@ MUTANTS = [
      "        return list(self) == list(other)", "        return True"),
     ('C17', 'queryset-last-iter', 'xtuml/meta.py',
      "            return next(reversed(self))", "            return next(iter(self))"),
+    ('C02', 'no-rollback', 'xtuml/meta.py',
+     "        ass.source_link.disconnect(inst1, inst2)\n        raise RelateException",
+     "        raise RelateException"),
+    ('C02', 'connect-ignores-check', 'xtuml/meta.py',
+     "        if self[instance] and not self.many and check:", "        if False:"),
+    ('C02', 'delete-skips-unrelate', 'xtuml/meta.py',
+     "        if not disconnect:\n            return", "        if True:\n            return"),
+    ('C02', 'find-link-ignores-phrase', 'xtuml/meta.py',
+     "            ass.source_link.phrase == phrase):", "            True):"),
+    ('C02', 'unrelate-one-direction', 'xtuml/meta.py',
+     "    if not ass.target_link.disconnect(inst2, inst1):\n        raise UnrelateException",
+     "    if False:\n        raise UnrelateException"),
+    ('C02', 'second-delete-silent', 'xtuml/meta.py',
+     '            raise DeleteException("Instance not found in the instance pool")', "            return"),
 ]
 
 
